@@ -929,6 +929,74 @@ def render_ops(ops):
     return "[\n" + ",\n".join(lines) + "\n]"
 
 
+
+# ---------------------------------------------------------------------------------------------
+# (c) in-place changes of settings lists by the code that USES a validated copy
+# ---------------------------------------------------------------------------------------------
+# validate() hands out a copy whose list attributes are mostly the receiver's own list objects.  Any
+# `settings.<field>.remove(...)`, `.append`, `.sort`, `del settings.<field>[i]`, `settings.<field>[:] = ...`,
+# `settings.<field> += ...` in the rest of the library (also through a local alias `x = settings.<field>`)
+# therefore changes the caller's object.  A settings list stored by reference into another object cannot
+# be followed and is reported as a problem (which fails the obligation).
+USE_MUTATORS = {"append","extend","insert","remove","pop","clear","sort","reverse","update","add","discard","setdefault","popitem"}
+def _settingsish(node, sobj):
+    if isinstance(node, ast.Name):
+        return "settings" in node.id.lower() or node.id in sobj
+    if isinstance(node, ast.Attribute):
+        return "settings" in node.attr.lower()
+    return False
+def scan_use(repo, fields):
+    mutated, problems, reads = [], [], 0
+    root = os.path.join(repo, "tlslite")
+    for dp, dn, fn in os.walk(root):
+        for f in sorted(fn):
+            if not f.endswith(".py") or f == "handshakesettings.py": continue
+            path = os.path.join(dp, f); rel = os.path.relpath(path, repo)
+            tree = ast.parse(open(path).read())
+            scopes = [n for n in ast.walk(tree) if isinstance(n, (ast.FunctionDef, ast.AsyncFunctionDef))] + [tree]
+            for sc in scopes:
+                body_nodes = list(ast.walk(sc)) if sc is not tree else [n for n in ast.iter_child_nodes(tree)]
+                sobj, alias = set(), {}
+                def field_ref(node):
+                    if isinstance(node, ast.Attribute) and node.attr in fields and _settingsish(node.value, sobj):
+                        return node.attr
+                    if isinstance(node, ast.Name) and node.id in alias:
+                        return alias[node.id]
+                    return None
+                # two passes so that aliases defined later in loops are known
+                for _ in range(2):
+                    for n in body_nodes:
+                        if isinstance(n, ast.Assign):
+                            fr = field_ref(n.value)
+                            for t in n.targets:
+                                if isinstance(t, ast.Name):
+                                    if fr: alias[t.id] = fr
+                                    elif _settingsish(n.value, sobj) and not isinstance(n.value, ast.Call): sobj.add(t.id)
+                for n in body_nodes:
+                    if isinstance(n, ast.Assign):
+                        fr = field_ref(n.value)
+                        for t in n.targets:
+                            if fr and not isinstance(t, ast.Name):
+                                if isinstance(t, ast.Attribute) and _settingsish(t.value, sobj):
+                                    continue   # settings.x = settings.y on a settings object: alias inside settings (validate-like)
+                                problems.append("%s:%d settings.%s stored by reference" % (rel, n.lineno, fr))
+                            if isinstance(t, ast.Subscript):
+                                f2 = field_ref(t.value)
+                                if f2: mutated.append((f2, "%s:%d" % (rel, n.lineno)))
+                    elif isinstance(n, ast.AugAssign):
+                        f2 = field_ref(n.target) or (field_ref(n.target.value) if isinstance(n.target, ast.Subscript) else None)
+                        if f2: mutated.append((f2, "%s:%d" % (rel, n.lineno)))
+                    elif isinstance(n, ast.Delete):
+                        for t in n.targets:
+                            if isinstance(t, ast.Subscript):
+                                f2 = field_ref(t.value)
+                                if f2: mutated.append((f2, "%s:%d" % (rel, n.lineno)))
+                    elif isinstance(n, ast.Call) and isinstance(n.func, ast.Attribute) and n.func.attr in USE_MUTATORS:
+                        f2 = field_ref(n.func.value)
+                        if f2: mutated.append((f2, "%s:%d" % (rel, n.lineno)))
+    return sorted(set(mutated)), sorted(set(problems))
+
+
 # ---------------------------------------------------------------------------------------------
 # driver
 # ---------------------------------------------------------------------------------------------
@@ -1080,7 +1148,15 @@ def analyse(repo):
     ai.run_validate()
     if not isinstance(info["class_consts"].get("ECPointFormat.uncompressed"), int):
         problems.append("ECPointFormat.uncompressed not found")
-    return {"info": info, "problems": problems, "dproblems": dproblems, "consts": consts,
+    # tuples (minVersion, maxVersion) are immutable: sharing them is harmless
+    list_fields = sorted(f for f, v in info["defaults"].items() if isinstance(v, list) and
+                         FIELD_KINDS.get(f, "strlist") in ("strlist", "natlist", "pairlist", "emptylist", "dcalgs"))
+    try:
+        use_mut, use_prob = scan_use(repo, list_fields)
+    except Exception as e:      # an unparsable module: nothing is known
+        use_mut, use_prob = [], ["scan failed: %s" % e]
+    return {"use_mutated": use_mut, "use_problems": use_prob, "list_fields": list_fields,
+            "info": info, "problems": problems, "dproblems": dproblems, "consts": consts,
             "defaults": defaults, "init_fields": init_fields,
             "unmodelled": unmodelled if cls else [], "ops": ai.ops, "conds": ai.conds}
 
@@ -1140,6 +1216,15 @@ def generate(repo):
     w("")
     w("/-- effects of `validate()` and its helpers on attribute bindings and list objects, in program order -/")
     w("def validateOps : List AliasOp := " + render_ops(a["ops"]))
+    w("")
+    w("/-- list-valued attributes of HandshakeSettings -/")
+    w("def listFields : List String := [" + ", ".join(lean_str(x) for x in a["list_fields"]) + "]")
+    w("/-- settings lists that some module of tlslite other than handshakesettings.py changes in place -/")
+    for f, loc in a["use_mutated"]:
+        w("-- %s at %s" % (f, loc))
+    w("def useMutatedFields : List String := [" + ", ".join(lean_str(x) for x in sorted(set(f for f, _ in a["use_mutated"]))) + "]")
+    w("/-- settings lists stored by reference where the scan cannot follow them -/")
+    w("def useScanProblems : List String := [" + ", ".join(lean_str(x) for x in a["use_problems"]) + "]")
     w("")
     w("end Tls.Settings.Gen")
     return {OUT: "\n".join(out) + "\n"}
